@@ -59,6 +59,7 @@ func main() {
 	transcript := flag.String("transcript", "", "write SMT transcripts with this prefix")
 	verbose := flag.Bool("v", false, "progress on stderr")
 	timeBudget := flag.Duration("time-budget", 0, "wall-clock budget per job (0 = none)")
+	clockMode := flag.String("clock", "symbolic", "symbolic | concrete (discrete-event time)")
 	qTimeout := flag.Int("query-timeout-ms", 30000, "per-query solver timeout")
 	flag.Parse()
 
@@ -326,7 +327,7 @@ func main() {
 		eng := &sym.Engine{Prog: prog, Stubs: js, Opaque: opaque, NoInit: noinit, Embeds: embeds}
 		eng.Cfg = sym.Config{Workers: *workers, MaxPaths: *maxPaths, MaxDecisions: *maxDec, MaxSteps: *maxSteps,
 			MaxDepth: *maxDepth, DelayBound: *delay, Params: j.Params, Known: known, Transcript: *transcript,
-			Verbose: *verbose, TimeBudget: *timeBudget}
+			Verbose: *verbose, TimeBudget: *timeBudget, ConcreteClock: *clockMode == "concrete"}
 		r := eng.Run(fn)
 		res.Jobs = append(res.Jobs, r)
 		if *verbose {
@@ -360,6 +361,6 @@ var defaultOpaque = []string{
 
 // packages whose initialisers are not run (their globals stay zero unless set by intrinsics).
 var defaultNoInit = []string{
-	"runtime", "os", "syscall", "reflect", "internal/poll", "net", "internal/reflectlite", "os/signal",
+	"runtime", "syscall", "reflect", "internal/poll", "net", "internal/reflectlite", "os/signal",
 	"internal/cpu", "internal/godebug", "crypto/rand", "internal/syscall/unix", "net/http", "crypto/tls", "crypto/x509",
 }
